@@ -667,6 +667,27 @@ func runC20(c *CaseCtx) *CaseResult {
 		if _, ok := roots[rootID(root)]; !ok || len(roots) != n {
 			return viol("health-roots", "CheckStorageHealth on a warm storage returned %d roots, want %d incl. %s", len(roots), n, rootID(root))
 		}
+		// the all-child-references query on the WARM storage (pending changes on top of earlier commits: the root slab
+		// object may have been replaced by a split or a demotion since it was last committed) against the live walk
+		rid := rootID(root)
+		wk := NewWalker(liveGetter(w.ps), w.ps, w.cb)
+		if err := wk.WalkRootID(rid, root, root.Dig); err != nil {
+			return viol("tree", "%v", err)
+		}
+		var want []atree.SlabID
+		for id := range wk.Visited {
+			if id != rid {
+				want = append(want, id)
+			}
+		}
+		refs, broken, err := w.ps.GetAllChildReferences(rid)
+		if err != nil {
+			return viol("childrefs", "GetAllChildReferences(%s) on a warm storage with pending changes failed: %v", rid, err)
+		}
+		if len(broken) != 0 || !idsEqual(refs, want) {
+			return viol("childrefs", "warm storage with pending changes: GetAllChildReferences(%s) = (%d refs, broken %v), the live walk reaches %d slabs below the root", rid, len(refs), sortIDs(broken), len(want))
+		}
+		obs["childrefs-queries-on-warm-storages-with-pending-changes"]++
 		checkpoints++
 		return nil
 	}
